@@ -783,20 +783,63 @@ impl Ctx {
     }
 
     /// Run `run_prop` on `shards` parallel shards (rayon), `cases` in total.
+    ///
+    /// A watchdog thread observes the case in flight on every shard: a single case that does
+    /// not return within `YQV_CASE_LIMIT` seconds (default 120; cases of the arithmetic
+    /// properties cost micro- to milliseconds) is reported as a violation of class
+    /// `<check>|nonterminating` with that case as replay, the evidence is written and the
+    /// process exits (the stuck thread cannot be stopped).  DESIGN.md 0.4.
     pub fn par_prop<S, G, F>(&self, check: &str, shards: u64, cases: u64, mk: G, f: F)
     where
         S: Strategy,
         G: Fn() -> S + Sync,
-        S::Value: Serialize + Clone + std::fmt::Debug,
+        S::Value: Serialize + Clone + std::fmt::Debug + Send + 'static,
         F: Fn(&S::Value, &mut Local) -> Result<(), Fail> + Sync,
     {
         use rayon::prelude::*;
         let per = (cases + shards - 1) / shards;
-        (0..shards).into_par_iter().for_each(|sh| {
-            let mut l = Local::new();
-            let strat = mk();
-            self.run_prop(check, sh, per, &strat, &mut l, &f);
-            self.merge(l);
+        let limit: f64 = std::env::var("YQV_CASE_LIMIT").ok().and_then(|s| s.parse().ok()).unwrap_or(120.0);
+        let slots: Vec<Mutex<Option<(Instant, S::Value)>>> = (0..shards).map(|_| Mutex::new(None)).collect();
+        let finished = std::sync::atomic::AtomicBool::new(false);
+        std::thread::scope(|sc| {
+            sc.spawn(|| {
+                while !finished.load(std::sync::atomic::Ordering::Relaxed) {
+                    std::thread::sleep(std::time::Duration::from_millis(250));
+                    for slot in &slots {
+                        let stuck = {
+                            let g = slot.lock().unwrap();
+                            match &*g {
+                                Some((t0, v)) if t0.elapsed().as_secs_f64() > limit => Some(v.clone()),
+                                _ => None,
+                            }
+                        };
+                        if let Some(v) = stuck {
+                            let fl = Fail::new(
+                                format!("{}|nonterminating", check),
+                                format!("a single case did not return within {} s (normal cost: micro- to milliseconds)", limit),
+                            );
+                            self.violation(check, &fl, serde_json::to_value(&v).unwrap_or(Value::Null));
+                            let code = self.finish();
+                            std::process::exit(if code == 0 { 1 } else { code });
+                        }
+                    }
+                }
+            });
+            (0..shards).into_par_iter().for_each(|sh| {
+                let mut l = Local::new();
+                let strat = mk();
+                let slot = &slots[sh as usize];
+                self.run_prop(check, sh, per, &strat, &mut l, |v, l| {
+                    *slot.lock().unwrap() = Some((Instant::now(), v.clone()));
+                    let r = f(v, l);
+                    *slot.lock().unwrap() = None;
+                    r
+                });
+                // a case that panicked left its entry behind
+                *slot.lock().unwrap() = None;
+                self.merge(l);
+            });
+            finished.store(true, std::sync::atomic::Ordering::Relaxed);
         });
     }
 
